@@ -6,6 +6,7 @@ import (
 	"fmt"
 	"go/types"
 	"hash/crc32"
+	"math"
 	"regexp"
 	"strconv"
 	"strings"
@@ -506,6 +507,15 @@ func init() {
 	regNative("strings.Clone", false, func(in *Interp, th *Thread, fr *Frame, args []Value, call ssa.Instruction) (Value, ctl) {
 		return args[0], ctlNext
 	})
+	for _, mf := range []struct {
+		n string
+		f func(float64) float64
+	}{{"Floor", math.Floor}, {"Ceil", math.Ceil}, {"Trunc", math.Trunc}, {"Sqrt", math.Sqrt}, {"Abs", math.Abs}, {"Log", math.Log}, {"Exp", math.Exp}} {
+		mf := mf
+		regNative("math."+mf.n, false, func(in *Interp, th *Thread, fr *Frame, args []Value, call ssa.Instruction) (Value, ctl) {
+			return Float{mf.f(args[0].(Float).f)}, ctlNext
+		})
+	}
 	regNative("runtime/debug.Stack", false, func(in *Interp, th *Thread, fr *Frame, args []Value, call ssa.Instruction) (Value, ctl) {
 		return Slice{}, ctlNext
 	})
@@ -544,6 +554,18 @@ func init() {
 		}
 		return in.st.Const(64, uint64(int64(strings.Index(a, b)))), ctlNext
 	})
+	cmpStr := func(in *Interp, th *Thread, fr *Frame, args []Value, call ssa.Instruction) (Value, ctl) {
+		if a, ok := args[0].(string); ok {
+			if b, ok := args[1].(string); ok {
+				return in.st.Const(64, uint64(int64(strings.Compare(a, b)))), ctlNext
+			}
+		}
+		lt := in.strLess(args[0], args[1])
+		eq := in.strEq(args[0], args[1])
+		return in.st.Ite(eq, in.st.Const(64, 0), in.st.Ite(lt, in.st.Const(64, ^uint64(0)), in.st.Const(64, 1))), ctlNext
+	}
+	regNative("internal/bytealg.CompareString", false, cmpStr)
+	regNative("strings.Compare", false, cmpStr)
 	regNative("internal/bytealg.Compare", false, func(in *Interp, th *Thread, fr *Frame, args []Value, call ssa.Instruction) (Value, ctl) {
 		a, b := &SymStr{in.sliceTerms(args[0].(Slice))}, &SymStr{in.sliceTerms(args[1].(Slice))}
 		lt := in.strLess(a, b)
